@@ -155,7 +155,17 @@ type vxOriginT struct {
 
 func (o *vxOriginT) RoundTrip(req *http.Request) (*http.Response, error) {
 	o.calls = append(o.calls, req)
-	return o.script(len(o.calls)-1, req)
+	resp, err := o.script(len(o.calls)-1, req)
+	if resp != nil && resp.Header != nil && vxLabelOn("C11/") {
+		// the origin may itself be a cache (stacked transports): its replies then carry
+		// cache-status fields of their own, which say nothing about this cache.  In the runs
+		// that check the C11 labels every origin reply carries such fields, with values this
+		// cache never produces, so that a leaked or a forgotten field both show; the other
+		// checks run the same harnesses with a plain origin.
+		resp.Header["X-From-Cache"] = []string{"0"}
+		resp.Header[internal.CacheStatusHeader] = []string{"UPSTREAM"}
+	}
+	return resp, err
 }
 
 // ---- logger ----
